@@ -80,10 +80,11 @@ func nwBuild(flat []nwNode, dist func(i int) float64) *newick.Node {
 func nwReadAll(data []byte) (trees [][]nwNode, gotErr bool, panicked bool) {
 	trees = [][]nwNode{}
 	panicked, _ = catch(func() {
-		if failedReadsFirst {
-			for _, t := range malformedTexts["newick"] {
-				for range newick.Reader(strings.NewReader(t)) {
-				}
+		if failedReadsFirst { // (one malformed text before each recorded read, in turn: a pool hands back what was put last)
+			ts := malformedTexts["newick"]
+			t := ts[malformedNext%len(ts)]
+			malformedNext++
+			for range newick.Reader(strings.NewReader(t)) {
 			}
 		}
 		for n, err := range newick.Reader(deliver(data)) {
